@@ -31,6 +31,29 @@ struct Prog {
         }
         nos = os + 1;
     }
+    // "gen<K>x<S>[+]": build the program from explorer choices (kind PROG: always fully enumerated) instead of a fixed string: K photon
+    // threads on one vCPU, each with 1..S ops drawn from `alphabet` (every combination), each thread starting after 0..2 padding yields
+    // (every arrival order); with '+' also 0..1 padding yields before each later op. Call inside the exploration window.
+    bool parse_or_generate(const char* s, const std::vector<std::string>& alphabet) {
+        int K, S; char plus = 0;
+        if (sscanf(s, "gen%dx%d%c", &K, &S, &plus) < 2) { parse(s); return false; }
+        std::string prog;
+        for (int k = 0; k < K; k++) {
+            if (k) prog += ',';
+            prog += 'p';
+            for (int sl = 0; sl < S; sl++) {
+                // later slots may be empty (shorter programs are part of the enumeration)
+                int c = pmc_choose((int)alphabet.size() + (sl ? 1 : 0), PMC_PROG, 0, "generated op");
+                if (c == (int)alphabet.size()) break;
+                if (sl && plus == '+') prog += 'q';
+                prog += alphabet[c];
+            }
+        }
+        generated = prog;
+        parse(prog.c_str());
+        return true;
+    }
+    std::string generated;
     // body(pt) runs the op string of one program thread
     void run(std::function<void(PT&)> body) {
         std::vector<pthread_t> ts;
